@@ -294,7 +294,7 @@ func (s *scen) buildWith(r *rand.Rand, dst int, l []item, how string, p Pred, ta
 	abs := s.absList(l)
 	kvs := make([]attribute.KeyValue, len(l))
 	for i, a := range abs {
-		kvs[i] = s.km.concrete(a, r.Intn(6))
+		kvs[i] = s.km.concrete(a, r.Intn(1<<16)) // any constructor route
 	}
 	if len(kvs) == 0 && r.Intn(2) == 0 {
 		kvs = nil
@@ -338,8 +338,38 @@ func (s *scen) buildWith(r *rand.Rand, dst int, l []item, how string, p Pred, ta
 	scribble(kvs)
 	scribble(dropped)
 	obs["slice"], obs["len"], obs["selfEq"] = s.km.abstractAll(set.ToSlice()), set.Len(), selfEqual(&set)
+	if p.Kind == "allow" || p.Kind == "deny" {
+		s.res.Count(fmt.Sprintf("%sfkeys_NewF_%s_%d", tag, p.Kind, len(p.Ks)), 1)
+	}
 	s.emit(map[string]any{"ev": "Build", "dst": dst, "how": how, "list": abs, "pred": p, "obs": obs})
 	return set
+}
+
+// twin builds the same key -> typed value mapping twice, through independently chosen
+// constructor routes, orders and duplications, then compares the two Sets and records both in
+// the StreamTable: the model says Equal, one entry (judged by TLC as any Cmp / Record / Obs).
+func (s *scen) twin() {
+	r := s.r
+	var l []item
+	if len(s.lists) > 0 && r.Intn(3) > 0 {
+		l = s.lists[r.Intn(len(s.lists))]
+	} else {
+		for n := r.Intn(s.K + 2); n > 0; n-- {
+			l = append(l, item{k: 1 + r.Intn(s.K), v: r.Intn(len(s.pool))})
+		}
+	}
+	nilp := Pred{Kind: "nil", Ks: []int{}, Ts: []string{}}
+	a := 1 + r.Intn(nRegs)
+	b := 1 + (a+r.Intn(nRegs-1))%nRegs
+	s.regs[a] = s.buildWith(r, a, l, pick(r, "NewSet", "Sortable"), nilp, "")
+	s.regs[b] = s.buildWith(r, b, stableVariant(r, l, len(s.pool)), pick(r, "NewSet", "Sortable"), nilp, "")
+	// stableVariant may add superseded duplicates only: same mapping
+	s.cmpWith(a, b, &s.regs[a], &s.regs[b], "twin_")
+	for _, src := range []int{a, b} {
+		s.recordReg(src)
+	}
+	s.obsWith(b, &s.regs[b])
+	s.res.Count("twins", 1)
 }
 
 func (s *scen) filter() {
@@ -357,6 +387,9 @@ func (s *scen) filterWith(src, dst int, orig *attribute.Set, p Pred, tag string)
 		s.res.Count(fmt.Sprintf("%ssize_FilterDrop_%d", tag, kept.Len()), 1)
 	}
 	s.res.Count(fmt.Sprintf("%ssize_Filter_%d", tag, kept.Len()), 1)
+	if p.Kind == "allow" || p.Kind == "deny" {
+		s.res.Count(fmt.Sprintf("%sfkeys_Filter_%s_%d", tag, p.Kind, len(p.Ks)), 1)
+	}
 	s.countLen(kept.Len())
 	obs := map[string]any{"dropped": s.km.abstractAll(dropped)}
 	scribble(dropped) // the removed list is the caller's; neither Set may notice
@@ -380,7 +413,10 @@ func (s *scen) mergeWith(a, b int, sa, sb *attribute.Set) {
 }
 
 func (s *scen) record() {
-	src := 1 + s.r.Intn(nRegs)
+	s.recordReg(1 + s.r.Intn(nRegs))
+}
+
+func (s *scen) recordReg(src int) {
 	d := s.regs[src].Equivalent()
 	var idx int
 	if e, ok := s.tab[d]; ok {
@@ -669,28 +705,39 @@ func (s *scen) sweep() {
 		r.Shuffle(len(l), func(i, j int) { l[i], l[j] = l[j], l[i] })
 		return l
 	}
+	nilp := Pred{Kind: "nil", Ks: []int{}, Ts: []string{}}
 	for _, d := range r.Perm(top + 1) {
+		dst := 1 + r.Intn(nRegs)
 		ranks := r.Perm(s.K)
 		for i := range ranks {
 			ranks[i]++
 		}
-		n := d + r.Intn(s.K-d+1)
-		keep, all := ranks[:d], ranks[:n]
-		allow := Pred{Kind: "allow", Ks: append([]int{s.K + 1 + r.Intn(3)}, keep...), Ts: []string{}}
-		deny := Pred{Kind: "deny", Ks: append([]int{s.K + 1}, all[d:]...), Ts: []string{}}
-		p := allow
-		if r.Intn(2) == 0 {
-			p = deny
+		s.regs[dst] = s.buildWith(r, dst, distinct(ranks[:d]), pick(r, "NewSet", "Sortable"), nilp, "")
+		// filters naming exactly c keys, c sweeping 0..13 as well (allow: the d kept keys, so c = d;
+		// deny: the removed keys padded with absent ones up to c)
+		c := (5*d + 3) % 14
+		for _, kind := range []string{"allow", "deny"} {
+			r.Shuffle(len(ranks), func(i, j int) { ranks[i], ranks[j] = ranks[j], ranks[i] })
+			n := d + r.Intn(s.K-d+1)
+			p := Pred{Kind: kind, Ks: append([]int{}, ranks[:d]...), Ts: []string{}}
+			if kind == "deny" {
+				if n-d > c {
+					n = d + c
+				}
+				p.Ks = append([]int{}, ranks[d:n]...)
+				for len(p.Ks) < c {
+					p.Ks = append(p.Ks, s.K+1+r.Intn(5))
+				}
+				r.Shuffle(len(p.Ks), func(i, j int) { p.Ks[i], p.Ks[j] = p.Ks[j], p.Ks[i] })
+			}
+			all := ranks[:n]
+			dst = 1 + r.Intn(nRegs)
+			s.regs[dst] = s.buildWith(r, dst, distinct(all), pick(r, "Filtered", "SortableFiltered"), p, "")
+			src := 1 + r.Intn(nRegs)
+			s.regs[src] = s.buildWith(r, src, distinct(all), "NewSet", nilp, "")
+			dst = 1 + r.Intn(nRegs)
+			s.regs[dst] = s.filterWith(src, dst, &s.regs[src], p, "")
 		}
-		nilp := Pred{Kind: "nil", Ks: []int{}, Ts: []string{}}
-		dst := 1 + r.Intn(nRegs)
-		s.regs[dst] = s.buildWith(r, dst, distinct(keep), pick(r, "NewSet", "Sortable"), nilp, "")
-		dst = 1 + r.Intn(nRegs)
-		s.regs[dst] = s.buildWith(r, dst, distinct(all), pick(r, "Filtered", "SortableFiltered"), p, "")
-		src := 1 + r.Intn(nRegs)
-		s.regs[src] = s.buildWith(r, src, distinct(all), "NewSet", nilp, "")
-		dst = 1 + r.Intn(nRegs)
-		s.regs[dst] = s.filterWith(src, dst, &s.regs[src], p, "")
 		if r.Intn(3) == 0 {
 			s.obs()
 		}
@@ -789,7 +836,7 @@ func scenario(r *rand.Rand, sc int, long, big, sweep bool, tw *vh.TraceWriter, r
 					res.AddMismatch(vh.Mismatch{Kind: "panic", Case: map[string]any{"why": "panic", "sc": sc}, Detail: fmt.Sprint(p)})
 				}
 			}()
-			switch n := r.Intn(118); {
+			switch n := r.Intn(126); {
 			case n < 35 || i == 0:
 				s.build(long)
 			case n < 50:
@@ -804,6 +851,8 @@ func scenario(r *rand.Rand, sc int, long, big, sweep bool, tw *vh.TraceWriter, r
 				s.merge()
 			case n < 106:
 				s.itOpen()
+			case n >= 118:
+				s.twin()
 			default:
 				s.itOps(big)
 			}
